@@ -172,6 +172,8 @@ HViol(h, ev) ==
                 [] ev.after = "cancel" -> {"CancelPrompt"}
                 [] OTHER -> {At("CloseEnds", o)}
     [] ev.ev = "Leak" -> {"AllReleased"}
+    \* Close of a wrapping stack returned although an inner swarm it owns was never closed
+    [] ev.ev = "InnerOpen" -> {"InnerClosed"}
     [] ev.ev = "Panic" -> IF Known(h, ev.op) /\ h.ops[ev.op].kind = "close2" THEN {"CloseIdempotent"} ELSE {"NoPanic"}
     \* queue at rest, never closed: every accepted message was seen by a callback or purged
     \* level "dgram" (a swarm over a lossless datagram transport, receive / cancel / Tell race): once the
